@@ -102,6 +102,10 @@ def run(eng, ctx):
                 continue
             ctx.check(not col, "C19.D0", qual, norm(e.node)[:80], expected="the memo key determines the result", found=(f"{len(col)} slot(s) shared by names with different results, e.g. key {col[0][0]!r}: "
                       f"{col[0][1]!r} -> {str(expected(col[0][1]))[:40]!r} but {col[0][2]!r} -> {str(expected(col[0][2]))[:40]!r}") if col else f"no collision over {len(concrete)} names", **loc)
+    for qual in ("rtcmhelpers.datadesc", "rtcmhelpers.att2idx", "rtcmhelpers.att2name"):
+        ub = eng.symeval(qual).undef_reads
+        hf = eng.repo.func(qual)
+        ctx.check(not ub, "C19.D0", qual, "locals bound before use", expected="every local read has a binding on its path", found=", ".join(f"{n.id} (line {n.lineno})" for n in ub[:4]) or "ok", **eng.loc(hf, ub[0] if ub else hf.node))
     if not memo_hit:
         ctx.ok("C19.D0", "rtcmhelpers", "memo tables in the name helpers", found="none: datadesc, att2idx and att2name store into no module-level table", file=eng.repo.relpath("rtcmhelpers"), line=0)
 
